@@ -55,10 +55,15 @@ def run(pid, rep, tier, seed, replay=None, n_quick=600, n_thorough=12000):
         if hasattr(fmod, "decode_variants"):
             extra = [x for v in vs for x in fmod.decode_variants(v, rnd)]
             rep.count("variants:" + f, len(extra))
+            for x in extra:
+                x.variant = True
             valids += extra
     cases = netprops.corpus(pid) + [v.line for v in valids]
     vlib.correspond(rep, cases, oracle=want_oracle(valids, rep), trivial=netprops.trivial, tag=tag)
     hostile = []
+    # variants are not mutated: their model-side oracle tables (e.g. bzip2: compressed -> reply) say nothing about
+    # what the real external decoder does with a corrupted stream
+    valids = [v for v in valids if not getattr(v, "variant", False)]
     rnd.shuffle(valids)
     for k, v in enumerate(valids[: len(valids) // 2]):
         c, what = netcases.mutate(v.case(), rnd)
